@@ -90,9 +90,9 @@ impl fmt::Display for RemoteAddr {
                 }
             }
             #[cfg(unix)]
-            RemoteAddr::Unix(path) | RemoteAddr::Unixgram(path) => {
-                write!(f, "unixgram://{}", path.display())
-            }
+            RemoteAddr::Unix(path) => write!(f, "unix://{}", path.display()),
+            #[cfg(unix)]
+            RemoteAddr::Unixgram(path) => write!(f, "unixgram://{}", path.display()),
         }
     }
 }
